@@ -754,7 +754,20 @@ fn bind_let_names_for_com(
                     binders(ldata.body.borrow(), out);
                 }
                 BodyForm::Mod(_, cf) => {
+                    // a program of its own: its parameters, its functions'
+                    // parameters and every binder in their bodies
                     flatten_expression_to_names_inner(out, cf.args.clone());
+                    binders(cf.exp.borrow(), out);
+                    for h in cf.helpers.iter() {
+                        match h {
+                            HelperForm::Defun(_, d) => {
+                                flatten_expression_to_names_inner(out, d.args.clone());
+                                binders(d.body.borrow(), out);
+                            }
+                            HelperForm::Defconstant(d) => binders(d.body.borrow(), out),
+                            HelperForm::Defmacro(_) => {}
+                        }
+                    }
                 }
                 _ => {}
             }
